@@ -298,13 +298,23 @@ func c10R6(c *Ctx, id string) {
 					cn := calleeOf(ci).Name()
 					argsTouch := false
 					for _, a := range ci.Common().Args {
-						for _, l := range provenance(a, provOpts{}) {
+						for _, l := range provenance(a, provOpts{ThroughCall: throughAll}) {
 							if l.Kind == "field" && pathOf(l.V).Has(roF) {
 								argsTouch = true
 							}
 							if l.Kind == "func" {
 								if cl := closureOf(l.V); cl != nil && touches(cl) {
 									argsTouch = true
+								}
+								// a closure over a local alias of the list
+								if mc, isMC := l.V.(*ssa.MakeClosure); isMC {
+									for _, b := range mc.Bindings {
+										for _, bl := range provenance(b, provOpts{ThroughCall: throughAll}) {
+											if bl.Kind == "field" && pathOf(bl.V).Has(roF) {
+												argsTouch = true
+											}
+										}
+									}
 								}
 							}
 						}
